@@ -15,12 +15,14 @@ HookShapes == { <<"box", 1>>, <<"rc", 1>>, <<"arc", 1>>, <<"boxtuple", 2>>, <<"b
                 <<"boxtransp", 1>>, <<"boxarrtransp3", 3>>, <<"boxarraytransp", 2>> }
 \* a transparent newtype whose only field is skipped: filled with its default, in place
 SeqShapes == {"array", "boxarray", "rcarray", "arrayofbox", "arrayopt", "vecarray2", "arraytransp", "boxarraytransp",
-              "vec", "deque", "list", "map", "vecbox", "vecvec"}
+              "vec", "deque", "list", "map", "vecbox", "vecvec",
+              \* zero-sized elements with a destructor; elements above 256 bytes
+              "arrayz", "boxarrayz", "vecarrayz2", "vecz", "listz", "arraybig", "vecbig", "dequebig"}
 \* shapes with a fixed number of instrumented elements
 FixedShapes == { <<"option", 1, 1>>, <<"result", 1, 1>>, <<"box", 1, 1>>, <<"rc", 1, 1>>, <<"arc", 1, 1>>,
                  <<"tuple3", 3, 3>>, <<"boxtuple", 2, 2>>, <<"nested", 3, 6>>, <<"struct3", 3, 3>>,
-                 <<"enum3", 3, 3>>, <<"enum1", 1, 1>>, <<"boxtransp", 1, 1>>, <<"boxarrtransp3", 3, 3>> }
-Total(shape, n) == IF shape \in {"vecarray2", "vecvec"} THEN 2 * n ELSE n
+                 <<"enum3", 3, 3>>, <<"nestedz", 3, 6>>, <<"arcarray3", 3, 3>>, <<"optarcarr", 3, 3>>, <<"enum1", 1, 1>>, <<"boxtransp", 1, 1>>, <<"boxarrtransp3", 3, 3>> }
+Total(shape, n) == IF shape \in {"vecarray2", "vecvec", "vecarrayz2"} THEN 2 * n ELSE n
 
 Vecs ==
   LET seqv == { [shape |-> s, n |-> n, f |-> -1, kind |-> "none"] : s \in SeqShapes, n \in 0..MaxN }
